@@ -188,7 +188,15 @@ def run_property(hmod, tier, seed, only=None):
         "requires_checked": total.requires,
         "solver_time_s": round(total.solver_time, 3),
         "aborted_paths": total.aborted,
-        "obligations": per_ob,
+        "obligations": len(per_ob),
+        "discharged": sum(1 for r in per_ob if r["status"] == "ok"),
+        "evaluations": total.paths + total.aborted,
+        "distinct_nontrivial": total.paths,
+        "rule": "evaluations = symbolic executions of the harness (completed + assumed-away paths); a case is one "
+                "completed path = one distinct sequence of branch decisions through the real code (its path condition is "
+                "disjoint from every other path's) that reached the end of the harness with all of its assertions "
+                "discharged by the solver; paths cut by an assumption are not counted",
+        "obligation_details": per_ob,
         "known_findings": witness,
     }
     evidence = {
